@@ -316,3 +316,11 @@ RULES = [
     ("C07.d", "queue is FIFO among equal keys", rule_d),
     ("C07.e", "periodic occurrence re-inserted when its predecessor is pulled", rule_e),
 ]
+
+
+def rule_inventory(ctx):
+    from . import inventory
+    inventory.check(ctx, ['seq-future-build', 'file:seq_futures'])
+
+
+RULES.append(("C07.g", "state-mutation inventory: no new site that changes the content of the state this property rests on", rule_inventory))
